@@ -9,19 +9,25 @@ def run(ctx):
     for w in ("Reach_AllowedDrop", "Reach_Side"):
         c.tlc_l1(ctx, "Watermark.tla", "MC_Watermark_%s.cfg" % w, expect_violation=w, workers=2)
     # the abstract state is (config, wm, max): the complete graph is dumped and covered
+    # the statement is invariant under the choice of time unit: the same behaviours are replayed with every spec quantity
+    # (timestamp, delay, lateness) multiplied by a unit in milliseconds - all units just above one second, and some large ones
+    units = list(range(1001, 1041 if q else 3001)) + [1118, 1235, 60000, 86400000, 10 ** 12, (1 << 53) + 1]
+    V = [{"unit": u} for u in units]
     if q:
-        c.graph_leg(ctx, "Watermark.tla", "watermark", "Gen_Watermark.cfg", {}, 2000, 13, 4, "Sim_Watermark.cfg", 1000, 14)
+        c.graph_leg(ctx, "Watermark.tla", "watermark", "Gen_Watermark.cfg", {}, 2000, 13, 4, "Sim_Watermark.cfg", 1000, 14, variants=V, variant_walks=0)
     else:
-        c.graph_leg(ctx, "Watermark.tla", "watermark", "Gen_Watermark.cfg", {}, 100000, 13, 5, "Sim_Watermark.cfg", 30000, 14)
+        c.graph_leg(ctx, "Watermark.tla", "watermark", "Gen_Watermark.cfg", {}, 100000, 13, 5, "Sim_Watermark.cfg", 30000, 14, variants=V, variant_walks=0)
     ctx.cov["exhaustive"] = True
     ctx.cov["rule"] = ("the complete reachable graph of Watermark.tla over (delay, strategy, lateness) x (watermark, max timestamp) "
                        "with timestamps 0..6 is dumped by TLC; every transition, all offer sequences to the all-histories depth "
                        "(after the configuration step), seeded walks and TLC-simulated behaviours of 12 offers are replayed on the real "
                        "WatermarkedStream; after every add_event: current watermark, whether watermark_history grew by exactly that value, "
-                       "where the event went (events / side output / nowhere), the late-statistics deltas and the cumulative totals")
+                       "where the event went (events / side output / nowhere), the late-statistics deltas and the cumulative totals; the transition "
+                       "cover is repeated with all time quantities scaled by each unit in 1001..1040 ms (thorough: ..3000), 1118, 1235, a minute, "
+                       "a day, 1e12 and 2^53+1; allowed lateness includes the unbounded grace period (Duration::MAX / u64::MAX ms)")
     ctx.assumptions += ["BoundedOutOfOrder with delays {0,1,2,4} ms and MonotonicAscending (as delay 0); Periodic/Custom strategies "
                         "depend on wall-clock time and are outside the statement",
-                        "timestamps 0..6 ms"]
+                        "timestamps 0..6 time units"]
     return c.finish(ctx, "model_checking")
 
 
